@@ -535,7 +535,22 @@ func (em *emitter) emitAssignmentNode(node *ast.Assignment) {
 
 		case *ast.Index:
 			exprType := em.typ(v.Expr)
-			expr := em.emitExpr(v.Expr, exprType)
+			var expr int8
+			nonLocalArray, isNonLocalArray := -1, false
+			if exprType.Kind() == reflect.Array {
+				nonLocalArray, isNonLocalArray = em.varStore.nonLocalVarIndex(v.Expr)
+			}
+			if isNonLocalArray {
+				// The element of a non-local array is assigned in place,
+				// through the address of the variable: assigning to a copy
+				// that is then written back would undo the other assignments
+				// of the same statement to the variable.
+				ptr := em.fb.newRegister(reflect.Pointer)
+				em.fb.emitGetVarAddr(nonLocalArray, ptr)
+				expr = -ptr
+			} else {
+				expr = em.emitExpr(v.Expr, exprType)
+			}
 			indexType := intType
 			if exprType.Kind() == reflect.Map {
 				indexType = exprType.Key()
@@ -558,7 +573,9 @@ func (em *emitter) emitAssignmentNode(node *ast.Assignment) {
 					addresses[i] = em.addressLocalMapIndex(expr, index, exprType, pos, node.Type)
 				}
 			case reflect.Slice, reflect.Array:
-				if nonLocalSlice, ok := em.varStore.nonLocalVarIndex(v.Expr); ok {
+				if isNonLocalArray {
+					addresses[i] = em.addressSliceIndex(expr, index, exprType, pos, node.Type)
+				} else if nonLocalSlice, ok := em.varStore.nonLocalVarIndex(v.Expr); ok {
 					addresses[i] = em.addressGlobalSliceIndex(nonLocalSlice, expr, index, exprType, pos, node.Type)
 				} else {
 					addresses[i] = em.addressSliceIndex(expr, index, exprType, pos, node.Type)
@@ -574,7 +591,15 @@ func (em *emitter) emitAssignmentNode(node *ast.Assignment) {
 				expr = op.Expr
 			}
 			typ := em.typ(expr)
-			reg := em.emitExpr(expr, typ)
+			var reg int8
+			if nonLocalStruct, ok := em.varStore.nonLocalVarIndex(expr); ok && typ.Kind() == reflect.Struct {
+				// The field of a non-local struct is assigned in place,
+				// through the address of the variable (see the array case).
+				reg = em.fb.newRegister(reflect.Pointer)
+				em.fb.emitGetVarAddr(nonLocalStruct, reg)
+			} else {
+				reg = em.emitExpr(expr, typ)
+			}
 			var field reflect.StructField
 			if typ.Kind() == reflect.Pointer {
 				field, _ = typ.Elem().FieldByName(v.Ident)
@@ -582,7 +607,7 @@ func (em *emitter) emitAssignmentNode(node *ast.Assignment) {
 				field, _ = typ.FieldByName(v.Ident)
 			}
 			index := em.fb.makeFieldIndex(field.Index)
-			if nonLocalStruct, ok := em.varStore.nonLocalVarIndex(expr); ok {
+			if nonLocalStruct, ok := em.varStore.nonLocalVarIndex(expr); ok && typ.Kind() != reflect.Struct {
 				addresses[i] = em.addressNonLocalStructSelector(nonLocalStruct, reg, index, typ, pos, node.Type)
 			} else {
 				addresses[i] = em.addressLocalStructSelector(reg, index, typ, pos, node.Type)
